@@ -128,6 +128,8 @@ def labels_for(problem):
         labs.append("zero-H0-block")
         if any(b > 0 for b in zb):
             labs.append("zero-H0-block-not-first")
+    if problem["selection"]["kind"] == "mask" and any(np.array(m).T.tolist() != m for m in problem["selection"]["masks"].values()):
+        labs.append("asymmetric-mask")
     if problem.get("ref_shift"):
         labs.append("far-offset-spectrum")
     if problem.get("int_dtype"):
